@@ -125,6 +125,34 @@ fn gen_mv(rng: &mut Rng) -> (M4, String, bool) {
     if rng.chance(1, 12) {
         return (identity4(), "identity".into(), false);
     }
+    // the property quantifies over all invertible model-views, not only T*R*S: a quarter are general
+    // affine maps (arbitrary invertible 3x3 block: shear, scale after rotation), a twelfth projective
+    match rng.below(12) {
+        0 | 1 | 2 => loop {
+            let mut m = identity4();
+            for i in 0..3 {
+                for j in 0..3 {
+                    m[i][j] = small_q(rng, 4, 3);
+                }
+                m[i][3] = if rng.chance(1, 3) { Q::ZERO } else { small_q(rng, 6, 4) };
+            }
+            if !det(m).is_zero() {
+                return (m, format!("general affine {:?}", m), true);
+            }
+        },
+        3 => loop {
+            let mut m = [[Q::ZERO; 4]; 4];
+            for r in m.iter_mut() {
+                for e in r.iter_mut() {
+                    *e = small_q(rng, 4, 3);
+                }
+            }
+            if !det(m).is_zero() {
+                return (m, format!("general projective {:?}", m), true);
+            }
+        },
+        _ => {}
+    }
     let r = rational_rotation(rng, 2);
     let s = if rng.chance(1, 3) { [Q::ONE; 3] } else { [small_q_nonzero(rng, 3, 2), small_q_nonzero(rng, 3, 2), small_q_nonzero(rng, 3, 2)] };
     // a quarter of the model-views have no translation at all (pure rotation / scale): matrices with
@@ -256,7 +284,20 @@ fn gen_scene(rng: &mut Rng) -> Scene {
     let (mv, mv_desc, mv_mixing) = gen_mv(rng);
     let (proj, proj_desc) = gen_proj(rng);
     let vp = gen_viewport(rng);
-    let p = [small_q(rng, 6, 4), small_q(rng, 6, 4), small_q(rng, 6, 4)];
+    let mut p = [small_q(rng, 6, 4), small_q(rng, 6, 4), small_q(rng, 6, 4)];
+    let (mut mv, mut mv_desc) = (mv, mv_desc);
+    if rng.chance(1, 8) {
+        // a microscopic scene: the point and the model-view translation scaled by 2^-54, so that a
+        // perspective clip w is far below the element type's epsilon without being zero
+        let k = Q::frac(1, 1i64 << 54);
+        for x in p.iter_mut() {
+            *x = *x * k;
+        }
+        for i in 0..3 {
+            mv[i][3] = mv[i][3] * k;
+        }
+        mv_desc = format!("{} with the translation scaled by 2^-54 (microscopic scene)", mv_desc);
+    }
     Scene { mv, mv_desc, proj, proj_desc, vp, p, mv_mixing }
 }
 
